@@ -686,6 +686,11 @@ func (zp *ZoneParser) Next() (RR, bool) {
 				return zp.setParseError(err.err, err.lex)
 			}
 
+			if zp.c.l.err {
+				// The lexer hit an error that the RDATA parser took for a blank.
+				return zp.setParseError(zp.c.l.token, zp.c.l)
+			}
+
 			if parseAsRFC3597 {
 				err := parseAsRR.(*RFC3597).fromRFC3597(rr)
 				if err != nil {
